@@ -338,3 +338,145 @@ func TestVerifC47Burst(t *testing.T) {
 		}
 	}
 }
+
+// ---------------------------------------------------------------------------------------------------
+// Publication order: tryAcquire reads state and openUntil without the mutex, so "Open" must not become
+// visible before the deadline of that open period is stored.
+//
+// The options clock is scripted and never advances during a scenario, so the open timeout cannot elapse.
+// Every clock() call made by the tripping caller is a pause point (this includes the one transitionTo(Open)
+// makes under the mutex): at each pause an observer looks at State(); when it sees Open it calls Execute at
+// once. That call must be rejected with ErrOpen, its function must not run and the breaker must still be
+// Open afterwards. The observer's call runs in its own goroutine: if it blocks (on the transition mutex
+// the paused tripper holds) the tripper is resumed and the call is joined afterwards, so the verdict does
+// not depend on timing.
+type c47Publish struct {
+	Scenario        string
+	Pauses          int
+	ProbesWhileOpen int
+	Admitted        int   // observer calls whose function ran although Open was visible and the timeout had not passed
+	NotErrOpen      int   // ... or that returned something else than ErrOpen
+	StateAfter      []int // State() after each such call had returned and the tripper had finished
+	FinalState      int
+	OpenUntil       int64
+	Now             int64
+	Timeout         int64
+}
+
+type c47Pauser struct {
+	armed    atomic.Bool
+	observer atomic.Bool // the observer's own clock() calls are not pause points
+	paused   chan struct{}
+	resume   chan struct{}
+	now      atomic.Int64
+}
+
+func (p *c47Pauser) clock() time.Time {
+	if p.armed.Load() && !p.observer.Load() {
+		p.paused <- struct{}{}
+		<-p.resume
+	}
+	return time.Unix(0, p.now.Load())
+}
+
+// c47PublishRun lets trip() run on its own goroutine with every clock() call of it a pause point.
+func c47PublishRun(b *CircuitBreaker, p *c47Pauser, scenario string, timeout int64, trip func()) c47Publish {
+	res := c47Publish{Scenario: scenario, Now: p.now.Load(), Timeout: timeout}
+	type probe struct {
+		ran  atomic.Bool
+		err  error
+		done chan struct{}
+	}
+	var probes []*probe
+	observe := func() {
+		if b.State() != Open {
+			return
+		}
+		res.ProbesWhileOpen++
+		pr := &probe{done: make(chan struct{})}
+		probes = append(probes, pr)
+		go func() {
+			defer close(pr.done)
+			p.observer.Store(true)
+			defer p.observer.Store(false)
+			_, pr.err = b.Execute(context.Background(), func(context.Context) (any, error) {
+				pr.ran.Store(true)
+				return 1, nil
+			})
+		}()
+		select {
+		case <-pr.done:
+		case <-time.After(150 * time.Millisecond): // blocked behind the paused tripper: let the tripper go on
+		}
+	}
+	tripDone := make(chan struct{})
+	p.armed.Store(true)
+	go func() { defer close(tripDone); trip() }()
+loop:
+	for {
+		select {
+		case <-p.paused:
+			res.Pauses++
+			observe()
+			p.resume <- struct{}{}
+		case <-tripDone:
+			break loop
+		}
+	}
+	p.armed.Store(false)
+	for _, pr := range probes {
+		select {
+		case <-pr.done:
+		case <-time.After(10 * time.Second):
+		}
+	}
+	observe() // and once more after the transition is complete
+	for _, pr := range probes {
+		select {
+		case <-pr.done:
+		case <-time.After(10 * time.Second):
+			res.NotErrOpen++
+			continue
+		}
+		if pr.ran.Load() {
+			res.Admitted++
+		}
+		if !errors.Is(pr.err, ErrOpen) {
+			res.NotErrOpen++
+		}
+		res.StateAfter = append(res.StateAfter, int(b.State()))
+	}
+	res.FinalState = int(b.State())
+	res.OpenUntil = b.openUntil.Load()
+	return res
+}
+
+// TestVerifC47PublishOrder: first trip (openUntil still 0) and re-trip from half-open (openUntil still the
+// elapsed deadline of the previous open period).
+func TestVerifC47PublishOrder(t *testing.T) {
+	_ = verifOutDir(t)
+	w := newVerifWriter(t, "c47_publish.jsonl")
+	defer w.close()
+	const timeout = 1000
+	for round := 0; round < 2; round++ {
+		p := &c47Pauser{paused: make(chan struct{}), resume: make(chan struct{})}
+		p.now.Store(5000)
+		b := NewCircuitBreaker(WithFailureRate(0.5), WithMinRequests(2), WithOpenTimeout(timeout), WithWindow(4000, 4),
+			WithHalfOpenMaxCalls(1+round), WithClock(p.clock))
+		fail := func() {
+			_, _ = b.Execute(context.Background(), func(context.Context) (any, error) { return nil, errC47Boom })
+		}
+		fail() // one failure, not yet minRequests
+		w.put(c47PublishRun(b, p, "first-trip", timeout, fail))
+		if b.State() != Open {
+			continue // (a wrong transition is the history harness's business)
+		}
+		// past the timeout: two failing probes re-open the breaker; the second one is the tripper
+		p.now.Store(5000 + timeout + 10)
+		fail()
+		if b.State() != HalfOpen {
+			continue
+		}
+		w.put(c47PublishRun(b, p, "re-trip-from-half-open", timeout, fail))
+	}
+}
